@@ -80,8 +80,10 @@ LibClauses(c) ==
 LibTriggers(c) ==
   IF c.kind \in {"chain", "tree"}
   THEN F("SubInsideSequentialContext",
-         \E j \in DOMAIN BodyStmts(c.start) :
-            LET s == BodyStmts(c.start)[j] IN
+         (\E j \in DOMAIN c.start.macros : ~c.start.macros[j].body.par /\
+              \E x \in DOMAIN c.start.macros[j].body.body : IsSubBlk(c.start.macros[j].body.body[x])) \/
+         \E j \in DOMAIN AllStmts(c.start) :
+            LET s == AllStmts(c.start)[j] IN
             (s.k = "blk" /\ ~s.par /\ ~s.sub /\ \E x \in DOMAIN s.body : IsSubBlk(s.body[x]))
             \/ (s.k = "loop" /\ ~s.body.sub /\ \E x \in DOMAIN s.body.body : IsSubBlk(s.body.body[x])))
        \cup F("HasOverride", c.ovr # <<>>)
